@@ -374,6 +374,90 @@ def run (ctx, repo, mods, type_parser_classes, fallback_classes=()):
       ctx.ob('R-CONTAIN', f_, "the caller's text is not used as a format string here", not eager, "passed on to the logging module unformatted" if not eager else
              "`%s` formats with the caller's text as the format string: a guard message that embeds bytes of the frame (the repr of a bad DHCP magic cookie containing '%%', say) makes it raise TypeError / ValueError "
              "- the length guard raises out of parse() instead of logging and returning" % norm(eager[0])[:60], (pbm_, eager[0]) if eager else f_, 'D1')
+  # ---- E13 printing / re-serialising methods only use what exists ---------------------------------------------------------------
+  # a global the module does not define, or an attribute no class of the object's hierarchy ever sets: the method raises
+  # NameError / AttributeError for every object (copy-and-paste between protocol modules is how these arise)
+  from .. import defs as defs_
+  pcs_ = [c for c in classes if pbase in c.mro() and c is not pbase]
+  def _known_attrs (c):
+    out = set()
+    fam = list(c.mro()) + [s_ for s_ in repo.subclasses(c)]
+    for k in fam:
+      out.update(k.methods.keys()); out.update(k.assigns.keys() if hasattr(k.assigns, 'keys') else k.assigns)
+      for f in k.methods.values():
+        recv = set(['self'])
+        for t, v, st, kd in q.stores_in(f.node):
+          if isinstance(t, ast.Name) and isinstance(v, ast.Call) and isinstance(v.func, ast.Name) and (v.func.id == 'cls' or v.func.id == k.name): recv.add(t.id)
+        for t, v, st, kd in q.stores_in(f.node):
+          if isinstance(t, ast.Attribute) and isinstance(t.value, ast.Name) and t.value.id in recv: out.add(t.attr)
+        for c_ in calls_in(f.node, nested=True):
+          if call_name(c_) == 'setattr' and len(c_.args) >= 2 and isinstance(c_.args[1], ast.Constant): out.add(c_.args[1].value)
+          if call_name(c_) in ('setattr', '__setattr__') and len(c_.args) >= 2 and not isinstance(c_.args[1], ast.Constant) and norm(c_.args[0]) in recv and f.name not in ('_init', '__init__'): out.add('*')
+      if '__getattr__' in k.methods or '__getattribute__' in k.methods: out.add('*')
+    return out
+  n_out = 0
+  for cls in pcs_:
+    known = None
+    for nm_ in ('__str__', '_to_str', '_fields', '__repr__', 'hdr', 'pack', '_pack_body'):
+      f_ = cls.methods.get(nm_)
+      if f_ is None: continue
+      n_out += 1
+      for gn_, node_ in defs_.undefined_names(repo, f_):
+        ctx.bad('R-DEF', f_, "undefined name `%s` in a printing / serialising method" % gn_,
+                "`%s` is not defined in %s (nor imported): %s.%s raises NameError for every object - the parse result of such a message cannot be %s"
+                % (gn_, cls.module.short, cls.name, nm_, "printed" if nm_ in ('__str__', '_to_str', '_fields', '__repr__') else "re-serialised"), (cls.module, node_), 'D4')
+      if known is None: known = _known_attrs(cls)
+      if '*' in known: continue
+      reads = []
+      for x in walk_no_nested(f_.node):
+        if isinstance(x, ast.Attribute) and isinstance(x.ctx, ast.Load) and isinstance(x.value, ast.Name) and x.value.id == 'self': reads.append((x.attr, x))
+        # getattr(self, name) with the names listed in a local literal the loop runs over
+        if isinstance(x, ast.Call) and call_name(x) == 'getattr' and len(x.args) == 2 and norm(x.args[0]) == 'self' and isinstance(x.args[1], ast.Name):
+          for lp in [y for y in ast.walk(f_.node) if isinstance(y, ast.For) and isinstance(y.target, ast.Name) and y.target.id == x.args[1].id]:
+            it = lp.iter
+            if isinstance(it, ast.Name): it = q.single_def(f_.node, it.id)
+            if isinstance(it, (ast.List, ast.Tuple)) and all(isinstance(e_, ast.Constant) and isinstance(e_.value, str) for e_ in it.elts):
+              for e_ in it.elts: reads.append((e_.value, x))
+      for at_, node_ in reads:
+        if at_ in known or at_.startswith('__'): continue
+        # guarded by hasattr / inside a try that catches AttributeError
+        g_ = q.cfg_of(f_); sn_ = q.enclosing_stmt_node(g_, node_)
+        if sn_ is not None and (_in_try(g_, sn_, ('Exception', 'BaseException', 'AttributeError')) or any('hasattr' in fs_ for fs_ in q.fact_strs(g_, sn_))): continue
+        ctx.bad('R-DEF', f_, "attribute `%s` read by a printing / serialising method exists" % at_,
+                "nothing in %s's class hierarchy ever sets or defines `%s`: %s.%s raises AttributeError - the parse result of such a message cannot be %s"
+                % (cls.name, at_, cls.name, nm_, "printed" if nm_ in ('__str__', '_to_str', '_fields', '__repr__') else "re-serialised"), (cls.module, node_), 'D4')
+  ctx.floor('printing / serialising methods scanned for missing names', n_out, 60)
+  # ---- E14 what parsing can produce can be packed: pack() of a class a parser dispatch table names is not the abstract stub -----------
+  def _always_raises (f):
+    g_ = q.cfg_of(f)
+    return g_.exit not in g_.reachable(g_.entry, avoid=[n_ for n_ in g_.nodes if n_.kind == 'raise_stmt'], exc=False)
+  n_tab = 0
+  for m in mods.values():
+    tabs = [x for x in ast.walk(m.tree) if isinstance(x, ast.Dict) and len(x.values) >= 2 and all(isinstance(v_, ast.Name) and isinstance(m.lookup(v_.id), type(pbase)) for v_ in x.values)]
+    for tb in tabs:
+      for v_ in tb.values:
+        c_ = m.lookup(v_.id)
+        if pbase not in c_.mro(): continue
+        n_tab += 1
+        pk_ = c_.find_method('pack')
+        if pk_ is None: continue
+        ctx.ob('R-AGREE', c_, "a class the parser's dispatch table produces can be re-serialised", not _always_raises(pk_),
+               "pack() resolves to %s" % pk_.qual if not _always_raises(pk_) else
+               "%s is produced by the dispatch table at %s:%d, but its pack() resolves to %s, which raises on every path (the abstract stub): re-serialising a parsed frame of this type raises"
+               % (c_.name, m.rel(), tb.lineno, pk_.qual), (m, v_), 'D4')
+  ctx.floor('classes named by parser dispatch tables', n_tab, 8)
+  # ---- E15 constructors initialise the base state printing / packing rely on ---------------------------------------------------
+  n_ctor = 0
+  for cls in pcs_:
+    own = cls.methods.get('__init__')
+    if own is None: continue
+    n_ctor += 1
+    base_init = [c_ for c_ in calls_in(own.node) if call_name(c_) == '__init__' and isinstance(c_.func, ast.Attribute)]
+    ctx.ob('R-SIB', own, "the constructor initialises the packet_base state (parsed / raw / next / prev)", bool(base_init),
+           "calls %s" % norm(base_init[0].func) if base_init else
+           "%s.__init__ never calls a base-class __init__ (every sibling does): an object whose parse() returned early has no `parsed` / `next` / `raw`, so packet_base.pack() and packet_base.__str__() raise AttributeError"
+           % cls.name, own, 'D4')
+  ctx.floor('packet class constructors', n_ctor, 28)
   ctx.stat('own __str__ methods examined', n_str); ctx.stat('tuple-arity sites', n_arity); ctx.stat('self-nesting dispatch sites', n_rec); ctx.stat('TLV value slices compared', n_tlv)
 
 def tlv_value_slices (ctx, classes, clause):
